@@ -55,7 +55,52 @@ def module_strings(model: Model, mod: ModuleInfo) -> dict[str, str]:
     return out
 
 
-def build_alphabet(patterns: list[tuple[str, int]], extra_chars: str) -> Alphabet:
+def fold_atoms(base: Alphabet, kinds: set) -> list:
+    """Extra atoms that make str.casefold / lower / upper CLASS-UNIFORM: code points are grouped by the
+    sequence of base classes of their image, so that one representative per class stands for all."""
+    groups: dict = {}
+    import bisect as _b
+
+    starts, owners = [], []
+    for k, iv in enumerate(base.members):
+        for lo, hi in iv:
+            starts.append(lo)
+            owners.append((hi, k))
+    order = sorted(range(len(starts)), key=lambda i: starts[i])
+    starts = [starts[i] for i in order]
+    owners = [owners[i] for i in order]
+
+    def cls(cp: int) -> int:
+        i = _b.bisect_right(starts, cp) - 1
+        return owners[i][1]
+
+    fns = [getattr(str, k) for k in sorted(kinds)]
+    for cp in range(0x110000):
+        if 0xD800 <= cp <= 0xDFFF:
+            continue
+        ch = chr(cp)
+        sig = []
+        changed = False
+        for f in fns:
+            im = f(ch)
+            if im != ch:
+                changed = True
+            sig.append(tuple(cls(ord(x)) for x in im))
+        if changed:
+            groups.setdefault((cls(cp), tuple(sig)), []).append(cp)
+    atoms = []
+    for cps in groups.values():
+        iv = []
+        for cp in cps:
+            if iv and iv[-1][1] == cp - 1:
+                iv[-1] = (iv[-1][0], cp)
+            else:
+                iv.append((cp, cp))
+        atoms.append(iv)
+    return atoms
+
+
+def build_alphabet(patterns: list[tuple[str, int]], extra_chars: str, fold_kinds: set | None = None) -> Alphabet:
     atoms: list = []
     for p, fl in patterns:
         collect_atoms(P.parse(p, fl), atoms)
@@ -65,7 +110,10 @@ def build_alphabet(patterns: list[tuple[str, int]], extra_chars: str) -> Alphabe
 
     atoms.append(list(category_intervals("space")))
     atoms.append([(0, 127)])  # str.isascii
-    return Alphabet(atoms)
+    base = Alphabet(atoms)
+    if fold_kinds:
+        return Alphabet(atoms + fold_atoms(base, fold_kinds))
+    return base
 
 
 class StrLang:
@@ -82,6 +130,7 @@ class StrLang:
         self.WS = alpha.classes_of_intervals(category_intervals("space"))
         self.BLANK = self.L.star(self.WS)
         self.used: list[str] = []  # (pattern, method) pairs consulted, for the evidence
+        self.fold_kinds: set = set()
 
     # ------------------------------------------------------------------ views
     def lift(self, lang: DFA, view) -> DFA:
@@ -98,6 +147,20 @@ class StrLang:
             return minimise(union(inter(view[1], self.lift(lang, view[2])), inter(complement(view[1]), self.lift(lang, view[3]))))
         if kind == "truth":
             raise Unsupported("a truth-valued local used as a string")
+        if kind == "fold":
+            # s.casefold() in lang  <=>  s in h^-1(lang), h the per-character image (a string):
+            # run the automaton of lang along h(representative) for every class
+            f = getattr(str, view[1])
+            k = lang.k if hasattr(lang, "k") else self.alpha.n
+            trans = {}
+            for q in range(lang.n):
+                for c in range(self.alpha.n):
+                    s_ = q
+                    for x in f(chr(self.alpha.reps[c])):
+                        s_ = lang.t[(s_, self.alpha.cls_of(x))]
+                    trans[(q, c)] = s_
+            here = DFA(self.alpha.n, lang.start, set(lang.acc), trans, lang.n)
+            return self.lift(minimise(here), view[2])
         if kind == "lit":
             # a literal string: the test does not depend on the parameter at all
             return L.SIGMA_STAR if lang.accepts([self.alpha.cls_of(ch) for ch in view[1]]) else L.EMPTY
@@ -226,6 +289,12 @@ class StrLang:
                 if isinstance(tgt, ast.Name) and isinstance(v, ast.Name) and v.id in views:
                     views[tgt.id] = views[v.id]
                     continue
+                if isinstance(tgt, ast.Name) and isinstance(v, ast.Call) and isinstance(v.func, ast.Attribute) and v.func.attr in ("casefold", "lower", "upper") and not v.args:
+                    try:
+                        views[tgt.id] = self._view_of(v, views)
+                        continue
+                    except Unsupported:
+                        pass
                 if isinstance(tgt, ast.Name) and isinstance(v, ast.Constant) and isinstance(v.value, str):
                     views[tgt.id] = ("lit", v.value)
                     continue
@@ -352,6 +421,10 @@ class StrLang:
         raise Unsupported(f"pattern `{ast.unparse(e)[:40]}` is not a module constant")
 
     def _view_of(self, e, views):
+        if isinstance(e, ast.Call) and isinstance(e.func, ast.Attribute) and e.func.attr in ("casefold", "lower", "upper") and not e.args and not e.keywords:
+            if e.func.attr not in self.fold_kinds:
+                raise Unsupported(f"str.{e.func.attr}() view without a fold-uniform alphabet")
+            return ("fold", e.func.attr, self._view_of(e.func.value, views))
         if isinstance(e, ast.Name) and e.id in views:
             if views[e.id][0] in ("truth", "idx"):
                 raise Unsupported(f"`{e.id}` is not a string")
@@ -489,6 +562,12 @@ class StrLang:
                     return self.lift(L.startswith(self._const_str(e.args[0])), v)
                 if f.attr == "endswith" and len(e.args) == 1:
                     return self.lift(L.endswith(self._const_str(e.args[0])), v)
+        if isinstance(e, ast.Call) and isinstance(e.func, ast.Attribute) and e.func.attr in ("issubset", "__le__") and len(e.args) == 1 and not e.keywords and isinstance(e.args[0], ast.Name) and e.args[0].id in views:
+            # CHARS.issubset(s): EVERY character of CHARS occurs in s
+            acc = L.SIGMA_STAR
+            for ch in self._char_set(e.func.value):
+                acc = minimise(inter(acc, L.contains(ch)))
+            return self.lift(acc, views[e.args[0].id])
         if isinstance(e, ast.Call) and isinstance(e.func, ast.Attribute) and e.func.attr == "isdisjoint" and len(e.args) == 1 and not e.keywords:
             # CHARS.isdisjoint(s) / set(s).isdisjoint(CHARS): no character of s is in CHARS
             a, b = e.func.value, e.args[0]
